@@ -44,7 +44,6 @@ func init() {
 			"selection rule as stated: maximum over matching (range, offer) pairs of q, then range specificity (exact > type/* > */*), then earlier offer; parameters of ranges and offers are ignored for matching",
 			"strong oracle only inside the grammar: lower-case type/subtype tokens, 'q' written in lower case, no whitespace around '=', no '*/subtype', qvalue = 0[.digits] | 1[.zeros]; empty list elements are skipped (RFC 7230 section 7) and are part of the judged grammar; everything else is judged for totality and result-in-offers only",
 			"offers and ranges with upper-case letters: whether a range and an offer that differ in letter case only match is not stated; such a pair of header and offer list is judged (same selection rule) exactly when every (range, offer) pair matches verbatim iff it matches with case ignored - a range that names an offer byte for byte matches it under every reading - and only for headers of the plain form 'range[;q=value]' with at most 5 fraction digits; the letter case of the ranges ParseAccept hands out is not judged there",
-			"TRIAGE-PENDING C07-mixed-case-produces: descriptions that declare a type with upper-case letters always get a parameter-less API default producer (without one, serving such a type panics 'can't find a producer' after a correct negotiation: the producer registry lower-cases its keys and is asked with the declared spelling)",
 			"headers holding two different q-values closer than 1e-6 are not judged by the strong oracle",
 			"a header that is present but holds no range is not judged (the statement speaks of a missing header only)",
 			"header.ParseAccept is judged on what the selection rule needs: one spec per range in order with the range's type, Q == 0 exactly for quality 0, and Q ordered/equal as the exact decimals are",
@@ -1042,14 +1041,10 @@ func genAPI(r *rand.Rand) *APIDesc {
 	vocabulary := accept.Types
 	if r.Intn(12) == 0 {
 		vocabulary = append(append([]string{}, MixedTypes[:2+r.Intn(len(MixedTypes)-1)]...), accept.Types[:4]...)
-		// TRIAGE-PENDING C07-mixed-case-produces: on an API WITHOUT default producer, serving a declared type spelled with
-		// upper-case letters panics "can't find a producer" after a correct negotiation (untyped.API.RegisterProducer
-		// lower-cases its key, ProducersFor looks the declared spelling up verbatim; with a default producer Respond
-		// silently falls back to it). Reported (/tmp/alarms3/C07-mixed-case-produces-no-producer.json); exactly that
-		// shape is kept out of the generator: such a description always gets a default producer.
-		if d.DefaultProduces == "" || strings.Contains(d.DefaultProduces, ";") { // (the fallback looks a parameterised default up verbatim too)
-			d.DefaultProduces = "application/json"
-		}
+		// On an API without default producer, serving a declared type spelled with upper-case letters panicked "can't find a
+		// producer" after a correct negotiation (untyped.API.RegisterProducer lower-cases its key, ProducersFor looked the
+		// declared spelling up verbatim; with a default producer Respond silently fell back to it). Repaired in the library
+		// (registry lookups fold case) and pinned; such descriptions are generated with and without a default producer.
 	}
 	list := func() []string {
 		n := 1 + r.Intn(4)
